@@ -301,11 +301,11 @@ pub fn run(args: &Args) -> i32 {
          transparency case carrying >= 1 byte, or a tamper layout; distinct by (schedule, sizes)",
     );
     let thorough = args.tier == Tier::Thorough;
-    let n_t = budget(args, 3, 300, 8_000);
+    let n_t = budget(args, 12, 300, 8_000);
     vmon::par_cases(&check, n_t, args.threads, |_, rng| transparency_case(&check, rng));
     check.note("phase_s_transparency", json!(check.elapsed()));
     // small layouts: every position
-    let n_l = budget(args, 1, 40, 400);
+    let n_l = budget(args, 3, 40, 400);
     vmon::par_cases(&check, n_l, args.threads, |i, rng| {
         let k = 1 + (i % 4) as usize;
         let sizes: Vec<usize> = (0..k).map(|_| *rng.pick(&[1usize, 2, 5, 16, 31, 40])).collect();
